@@ -20,7 +20,7 @@ import (
 func (e *env) ibcRecvCases() []string {
 	c := e.c
 	S, _ := c.Ctx.CacheContext()
-	port, ch := tok.Channel(c, S, 1)
+	port, ch := tok.ChannelTo(c, S, 1, "channel-7") // the remote end carries another id; packets come from it
 	vAlias := tok.VoucherDenom(c, S, port, ch, "ualias")
 	alias := tok.AddToken(c, S, "eth", 4, true, vAlias) // base token with the voucher as an alias (many-to-one)
 	own := tok.AddOwnVoucherToken(c, S, port, ch, "uown") // the voucher denom itself is the pair's coin
@@ -112,8 +112,12 @@ func (e *env) ibcRecvCases() []string {
 			B.KVStore(c.App.GetKey(erc20types.StoreKey)).Set(append(append([]byte{}, erc20types.KeyPrefixTokenPair...), p.GetID()...), []byte{0xff, 0xff, 0xff, 0xff})
 		}
 		pre := c.DumpAll(B)
-		ok, _, panicked := tok.CoreRecvTx(c, B, pkt, relayer)
-		diff := lib.DiffDumps(pre, c.DumpAll(B))
+		// delivered by ibc-go's own MsgRecvPacket handler (channel checks, 09-localhost proof, receipt, cache rule, ack written)
+		ok, _, refused, panicked := tok.RealRecvTx(c, B, pkt, relayer)
+		if refused != nil {
+			panic(fmt.Sprintf("scenario %s: the IBC core refused the message: %v", s.name, refused))
+		}
+		diff := tok.AppDiff(lib.DiffDumps(pre, c.DumpAll(B))) // the application's writes (receipt and acknowledgement are the core's)
 		changed := len(diff) > 0
 		if s.garblePair && panicked == nil && (ok || changed) {
 			// the designated outcome of a panicking follow-up on this code: the transaction fails (an error acknowledgement with
